@@ -1168,7 +1168,7 @@ func ruleWrapOrder(c *Ctx) {
 			}
 			return s == eqSucc
 		}
-		dropped := false
+		dropped, viaSentinel := false, false
 		var L *Loop
 		for _, l := range fi.loops {
 			if l.Blocks[readFrom.Block()] {
@@ -1187,6 +1187,7 @@ func ruleWrapOrder(c *Ctx) {
 				seen[b] = true
 				for _, sc := range b.Succs {
 					if fullSide(b, sc) {
+						viaSentinel = true
 						continue
 					}
 					if sc == L.Header {
@@ -1204,6 +1205,12 @@ func ruleWrapOrder(c *Ctx) {
 		detail := "the error ReadFrom returned together with data (k > 0) is discarded when Parse is retried: a reader that fails once and then recovers (or ends) is never reported, a truncated stream looks complete"
 		if !dropped && keepF != pendingRet {
 			detail = "the reader error is stored but the stored value is never returned"
+		}
+		if viaSentinel && !dropped {
+			// the wrapper tells "the refill stopped because the buffer is full" from "the reader failed" by the error
+			// VALUE ReadFrom returns; ReadFrom passes a reader's error through unchanged, so a reader that fails with
+			// the exported sentinel itself is taken for a full buffer when data came with it
+			c.fail(name+":reader-error-kept:sentinel", readFrom.Pos(), "the kept-error decision compares ReadFrom's error with the package's ErrFullBuffer value, which ReadFrom uses for its own full-buffer status and also passes through when the reader itself fails with it: a reader error of that value that arrives together with data is dropped")
 		}
 		c.check(okKeep, name+":reader-error-kept", readFrom.Pos(), "a reader error that arrives with data is kept (or the refill ended for lack of room) before Parse is retried, and handed out once the data is parsed", detail)
 		if keepF != nil {
